@@ -53,6 +53,15 @@ def ensure_streams(app: appboot.App):
     a = mp4synth.make_track("audio", 44100, [88064, 88064, 88064, 51200], samples_per_segment=86,
                             seed=42, track_id=2)
     mp4synth.register(app, "syn4", "Synthetic audio reference", {"syn4_v1": v, "syn4_a1": a}, timing_from="syn4_a1")
+    # syn5: fragments numbered from 0 (a legal start number that is falsy in Python) and a loop of exactly
+    # 2^13 video ticks, so that loop and segment boundaries fall on 2^31, 2^32, 2^33 ticks (the points where
+    # the 32-bit decode time of a stored version-0 tfdt box overflows); audio drift 0
+    v = mp4synth.make_track("video", 1024, [2048, 2048, 2048, 2048], samples_per_segment=4,
+                            seed=51, track_id=1, start_number=0)
+    a = mp4synth.make_track("audio", 48000, [96256, 95232, 96256, 96256], samples_per_segment=[94, 93, 94, 94],
+                            seed=52, track_id=2, start_number=0, sample_durations_in="trun")
+    mp4synth.register(app, "syn5", "Synthetic numbered from 0, power-of-two loop", {"syn5_v1": v, "syn5_a1": a},
+                      timing_from="syn5_v1")
     _STREAMS_READY = True
 
 
@@ -165,15 +174,27 @@ def us_since_epoch(dt: datetime.datetime) -> int:
     return (d.days * 86400 + d.seconds) * 1_000_000 + d.microseconds
 
 
-def pick(rng, items: list, k: int) -> list:
-    """first 2, last 3 and a random sample of the rest (indices)"""
+def pick(rng, items: list, k: int, must=()) -> list:
+    """first 2, last 3, the `must` indices and a random sample of the rest (indices)"""
     n = len(items)
     if n <= k:
         return list(range(n))
-    idx = {0, 1, n - 1, n - 2, n - 3}
+    idx = {0, 1, n - 1, n - 2, n - 3} | {i for i in must if 0 <= i < n}
     while len(idx) < k:
         idx.add(rng.randrange(n))
     return sorted(idx)
+
+
+def width_boundaries(times: list) -> list:
+    """indices of the entries whose time is the first at or above 2^31, 2^32 or 2^33 ticks (and the entry
+    before it): where a 32-bit decode time / a 33-bit PTS changes representation"""
+    out = []
+    for i, t in enumerate(times):
+        prev = times[i - 1] if i else None
+        for k in (31, 32, 33):
+            if t >= 2 ** k and (prev is None or prev < 2 ** k) and i:
+                out += [i - 1, i]
+    return out
 
 
 def walk_manifest(app, client, clock, stream: str, url: str, now: datetime.datetime, rng,
@@ -199,7 +220,7 @@ def walk_manifest(app, client, clock, stream: str, url: str, now: datetime.datet
             continue
         if rep.timeline is not None and "$Time$" in rep.media:
             rel_us = now_us - (mpd.ast_us or 0) - rep.period_start_us
-            for i in pick(rng, rep.timeline, per_rep):
+            for i in pick(rng, rep.timeline, per_rep, width_boundaries([t_ for t_, _ in rep.timeline])):
                 t, d = rep.timeline[i]
                 u = rep.media_url(time=t)
                 f = Fetch(url, iso(now), now_us, stream, rep.rep_id, "time", t, d, u, 0, listed_index=i)
@@ -209,7 +230,7 @@ def walk_manifest(app, client, clock, stream: str, url: str, now: datetime.datet
         elif rep.timeline is not None and "$Number$" in rep.media:
             # SegmentTimeline with $Number$: the i-th entry has number startNumber + i
             rel_us = now_us - (mpd.ast_us or 0) - rep.period_start_us
-            for i in pick(rng, rep.timeline, per_rep):
+            for i in pick(rng, rep.timeline, per_rep, width_boundaries([t_ for t_, _ in rep.timeline])):
                 t, d = rep.timeline[i]
                 u = rep.media_url(number=rep.start_number + i)
                 f = Fetch(url, iso(now), now_us, stream, rep.rep_id, "number", rep.start_number + i, d, u, 0,
@@ -224,7 +245,7 @@ def walk_manifest(app, client, clock, stream: str, url: str, now: datetime.datet
                 nums = None
             if nums is None:
                 continue
-            for i in pick(rng, nums, per_rep):
+            for i in pick(rng, nums, per_rep, width_boundaries([(n_ - rep.start_number) * rep.duration for n_ in nums])):
                 n = nums[i]
                 u = rep.media_url(number=n)
                 f = Fetch(url, iso(now), now_us, stream, rep.rep_id, "number", n, rep.duration, u, 0)
